@@ -92,6 +92,19 @@ def interp_knots(ctx):
              construct='x-coordinates of the beat interpolation', definite=True)
 
 
+def _exclusive(fn, a, b):
+  """a and b sit in different arms of one if statement (or a is b)."""
+  if a is b:
+    return True
+  for n in ast.walk(fn):
+    if isinstance(n, ast.If):
+      ina = any(a is x for s in n.body for x in ast.walk(s)), any(a is x for s in n.orelse for x in ast.walk(s))
+      inb = any(b is x for s in n.body for x in ast.walk(s)), any(b is x for s in n.orelse for x in ast.walk(s))
+      if (ina[0] and inb[1]) or (ina[1] and inb[0]):
+        return True
+  return False
+
+
 def _root_writes(res, in_place, param):
   ws = cov.result_writes(res, include_param=in_place)
   if in_place:
@@ -126,6 +139,20 @@ def uniform(ctx, name, ptypes, consts, tpaths, op, operand, extra=None, extra_al
     others = [w for w in bp.get(p, []) if w not in hits]
     if others:
       ok = False
+    # exactly once: two sites that both run (not the two arms of one test) apply the operation twice to the same field
+    stmts = []
+    for w in hits:
+      if not any(w.stmt is x for x in stmts):
+        stmts.append(w.stmt)
+    twice = [(a, b) for i, a in enumerate(stmts) for b in stmts[i + 1:] if not _exclusive(fi.node, a, b)]
+    if twice:
+      a, b = twice[0]
+      ctx.ob('UNIFORM/once/' + name, fi, b, False, '%s: %s receives %s %s at line %d and again at line %d (both run: the second loop walks a collection that still contains '
+             'these events): the field moves by the operation applied twice while every other field moves once' % (
+                 tag, cov.path_text(p), wop, wopd, a.lineno, b.lineno), construct='%s: %s %s %s exactly once' % (tag, cov.path_text(p), wop, wopd), definite=True)
+    else:
+      ctx.ob('UNIFORM/once/' + name, fi, hits[0].stmt if hits else fi.node, True, '%s receives the operation at one site' % cov.path_text(p),
+             construct='%s: %s %s %s exactly once' % (tag, cov.path_text(p), wop, wopd))
     ctx.ob('UNIFORM/' + name, fi, hits[0].stmt if hits else fi.node, ok,
            ('%s receives %s %s' % (cov.path_text(p), wop, wopd)) if ok else
            ('%s: time-bearing field %s (from music.proto) %s' % (
